@@ -117,7 +117,7 @@ func (o columnPaginator[ResourceType, OptionsType]) BuildCursor(ret []ResourceTy
 			cp.PaginationID = paginationIDs[len(paginationIDs)-1]
 			next = &cp
 		}
-		if o.query.PaginationID != nil {
+		if o.query.PaginationID != nil && o.query.Bottom != nil {
 			if (order == paginate.OrderAsc && o.query.PaginationID.Cmp(o.query.Bottom) > 0) ||
 				(order == paginate.OrderDesc && o.query.PaginationID.Cmp(o.query.Bottom) < 0) {
 				cp := o.query
